@@ -136,3 +136,68 @@ POD_CLOCK = {
     "h.MM uhr": (lambda h, m: "%d.%02d uhr" % (h, m), {}),
     "h o'clock": (lambda h, m: "%d o'clock" % h if m == 0 else None, {"hour_only": True, "no_am_pod": True}),
 }
+
+# ---------------------------------------------------------------------------
+# partial dates (C04): day of month, day + month, parts of day
+# ---------------------------------------------------------------------------
+MONTH_EN = ["january", "february", "march", "april", "may", "june", "july", "august", "september", "october",
+            "november", "december"]
+MONTH_DE = ["januar", "februar", "märz", "april", "mai", "juni", "juli", "august", "september", "oktober",
+            "november", "dezember"]
+MONTH_AB = ["jan", "feb", "mar", "apr", "may", "jun", "jul", "aug", "sep", "oct", "nov", "dec"]
+MONTH_AB_DE = ["jan", "feb", "mär", "apr", "mai", "jun", "jul", "aug", "sept", "okt", "nov", "dez"]
+
+
+def ord_en(n):
+    return "%d%s" % (n, "th" if 11 <= n % 100 <= 13 else {1: "st", 2: "nd", 3: "rd"}.get(n % 10, "th"))
+
+
+# excluded, with the competing reading: a bare number (also an hour), 'Nten' /
+# 'Nsten' (N + the English hour 'ten')
+DOM_FORMS = {
+    "d.": lambda n: "%d." % n, "dd.": lambda n: "%02d." % n, "dth": ord_en, "the dth": lambda n: "the " + ord_en(n),
+    "on the dth": lambda n: "on the " + ord_en(n), "am d.": lambda n: "am %d." % n, "den d.": lambda n: "den %d." % n,
+    "d th": lambda n: "%d th" % n, "dter": lambda n: "%dter" % n,
+}
+
+# 'd/m' is kept only for d > 12: below that the library's mm/dd rule gives the
+# same characters a second legitimate reading
+DOY_FORMS = {
+    "d.m.": lambda d, m: "%d.%d." % (d, m), "dd.mm.": lambda d, m: "%02d.%02d." % (d, m),
+    "d.m": lambda d, m: "%d.%d" % (d, m), "dd.mm": lambda d, m: "%02d.%02d" % (d, m),
+    "d/m": lambda d, m: "%d/%d" % (d, m) if d > 12 else None,
+    "d. Monat": lambda d, m: "%d. %s" % (d, MONTH_DE[m - 1]), "d Month": lambda d, m: "%d %s" % (d, MONTH_EN[m - 1]),
+    "dth of Month": lambda d, m: "%s of %s" % (ord_en(d), MONTH_EN[m - 1]),
+    "dth Month": lambda d, m: "%s %s" % (ord_en(d), MONTH_EN[m - 1]),
+    "Month dth": lambda d, m: "%s %s" % (MONTH_EN[m - 1], ord_en(d)), "Month d": lambda d, m: "%s %d" % (MONTH_EN[m - 1], d),
+    "d. mon": lambda d, m: "%d. %s" % (d, MONTH_AB[m - 1]), "mon d": lambda d, m: "%s %d" % (MONTH_AB[m - 1], d),
+    "d mon": lambda d, m: "%d %s" % (d, MONTH_AB[m - 1]),
+    "the dth of Month": lambda d, m: "the %s of %s" % (ord_en(d), MONTH_EN[m - 1]),
+    "am d. Monat": lambda d, m: "am %d. %s" % (d, MONTH_DE[m - 1]), "d.mon": lambda d, m: "%d.%s" % (d, MONTH_AB[m - 1]),
+    "mon-d": lambda d, m: "%s-%d" % (MONTH_AB[m - 1], d), "mon/d": lambda d, m: "%s/%d" % (MONTH_AB[m - 1], d),
+    "d/mon": lambda d, m: "%d/%s" % (d, MONTH_AB[m - 1]), "on Month d": lambda d, m: "on %s %d" % (MONTH_EN[m - 1], d),
+    "am d.m.": lambda d, m: "am %d.%d." % (d, m),
+}
+
+# surface form -> key of the library's part-of-day table that it names
+# (excluded: 'vormittag(s)' alone also reads 'vor mittag' = before noon;
+# 'am morgen' = 'am <tomorrow>')
+POD_FORMS = {
+    "morning": "morning", "morgens": "morning", "früh": "morning", "in der früh": "morning", "in der frühe": "morning",
+    "early": "morning", "forenoon": "forenoon", "am vormittag": "forenoon", "afternoon": "afternoon",
+    "nachmittag": "afternoon", "nachmittags": "afternoon", "noon": "noon", "mittag": "noon", "mittags": "noon",
+    "evening": "evening", "tonight": "evening", "late": "evening", "abend": "evening", "abends": "evening",
+    "spät": "evening", "night": "night", "nacht": "night", "nachts": "night", "very early": "earlymorning",
+    "sehr früh": "earlymorning", "very late": "lateevening", "sehr spät": "lateevening", "first": "first",
+    "earliest": "first", "as early as possible": "first", "frühestens": "first", "so früh wie möglich": "first",
+    "erster": "first", "last": "last", "latest": "last", "as late as possible": "last", "letzter": "last",
+    "so spät wie möglich": "last", "early morning": "earlymorning", "late morning": "latemorning",
+    "early afternoon": "earlyafternoon", "late afternoon": "lateafternoon", "early evening": "earlyevening",
+    "late evening": "lateevening", "very early morning": "veryearlymorning", "very late evening": "verylateevening",
+    "früher morgen": "earlymorning", "später abend": "lateevening", "früher nachmittag": "earlyafternoon",
+    "später nachmittag": "lateafternoon", "sehr früher morgen": "veryearlymorning", "late night": "latenight",
+    "early night": "earlynight", "frühen abend": "earlyevening", "spätem abend": "lateevening",
+    "in the morning": "morning", "in the afternoon": "afternoon", "in the evening": "evening", "at night": "night",
+    "am abend": "evening", "am nachmittag": "afternoon", "this morning": "morning", "this evening": "evening",
+    "this afternoon": "afternoon", "early early morning": "earlyearlymorning",
+}
